@@ -26,6 +26,12 @@ Theorem C07_every_path_has_fallback :
 Proof. repeat split; reflexivity. Qed.
 Print Assumptions C07_every_path_has_fallback.
 
+(* the output buffer handed to zstd (sizes read from the source on every run) is never smaller than zstd's worst-case
+   framing of n bytes: the wrapper cannot fail with "destination too small" and report an error code as a size *)
+Theorem C07_zstd_buffer_sufficient : forall n, 0 <= n -> zstd_worst n <= zstd_buffer n.
+Proof. exact zstd_buffer_sufficient. Qed.
+Print Assumptions C07_zstd_buffer_sufficient.
+
 Example C07_ex : out_size (fun s => s + 22) 0 8 1000 false false false 5000 (raw_stream 0 8 1000 + 1) = 4062
   /\ const_stream 1 8 = 56 /\ const_stream 0 8 = 44.
 Proof. repeat split; vm_compute; reflexivity. Qed.
